@@ -6,7 +6,7 @@ tls  : C01-style connections with symbolic MAC/IP addresses and client port, rec
 quic : the same for QUIC datagrams (time and direction of the input datagram).
 ts   : microsecond preservation: the real dpkt_dsb.Reader is run on a block model whose tick words are recording variables
        (tlv.sx.realmodel), the recorded computation of `ts` is composed with dpkt's writer (intround(ts * 1e6)) and decided in the
-       standard relative-error model of IEEE-754 doubles.
+       standard rounding-error model of IEEE-754 doubles (half an ulp per operation).
 segmeta : C05-style cut/duplicated/reordered segments; record.metadata must name exactly the segments overlapping the record."""
 import random
 
@@ -15,7 +15,7 @@ SITES = ["no-exception", "metadata-exactly-overlapping-packets", "tls-endpoints-
          "quic-datagram-time", "ts-expression-recognised", "ts-microsecond-roundtrip"]
 MODELS = ["as C01/C02; capture times are symbolic integers (the pipeline only copies and compares them)",
           "IPv4Address/IPv6Address on symbolic bytes: proxy object (shim in session / quic_session)",
-          "double arithmetic in the ts lemma: every operation has relative error <= 2^-53 (exact on exactly representable results is not assumed)"]
+          "double arithmetic in the ts lemma: every operation adds an error of at most half an ulp of its result's binade; int -> float conversion is exact up to 2^53"]
 ASSUMPTIONS = ["application records are non-empty in the tls harness", "microsecond lemma: ticks < 2^51 us (mid 2041), if_tsresol = 6, no if_tsoffset"]
 
 
@@ -254,7 +254,7 @@ def _run_quic(cfg):
 
 def _run_ts(cfg):
     """The real Reader is run over SHB, IDB(if_tsresol 6), EPB, PB whose tick words are recording variables (tlv.sx.realmodel); the
-    recorded floating-point computation is then decided in z3's real arithmetic with one relative error per rounding."""
+    recorded floating-point computation is then decided in z3's real arithmetic with one rounding error (half an ulp) per operation."""
     import time
     import z3
     from tlv.sx import realmodel as rm
@@ -297,7 +297,7 @@ def _run_ts(cfg):
             inconclusive.append("solver returned %s" % r)
     return {"stats": {"paths": len(exprs), "decisions": len(exprs), "queries": queries, "solver_s": time.time() - t0, "checks": queries},
             "violations": viol, "sites": sites, "inconclusive": inconclusive,
-            "samples": [{"path": 0, "inputs": {"expressions": len(exprs)}, "result": "relative-error model, ticks < 2^51", "validate": False}]}
+            "samples": [{"path": 0, "inputs": {"expressions": len(exprs)}, "result": "rounding-error model, ticks < 2^51", "validate": False}]}
 
 
 def _default_ts(rm):
